@@ -255,9 +255,12 @@ func init() {
 				}
 			}
 		}
-		// Part 3 (thorough): hostile names at n <= 2, full product
-		if c.Thorough() {
-			host := []string{"x y", "+x*", "é", "- q"}
+		// Part 3: hostile names at n <= 2, full product (names with bullets or '#' at their edges, blanks inside)
+		{
+			host := []string{"x y", "C#", "#inc"}
+			if c.Thorough() {
+				host = []string{"x y", "+x*", "é", "- q", "C#", "#inc", "a#b", "*"}
+			}
 			for n := 1; n <= 2 && !c.Expired(); n++ {
 				enum.DepthSeqs(n, func(d0 []int) {
 					d := append([]int{}, d0...)
